@@ -200,10 +200,14 @@ def judge_case(c):
     if c.m is None or c.m.startswith("!"):
         fails.append(("model-self-check", {"model": c.m}))
         return fails
-    if c.wf is not None and (c.wf.get("wf") != "1" or c.wf.get("scoped") != "1"):
+    if c.wf is not None and c.wf.get("xeq", "1") != "1":
+        # the extended compiler / semantics disagree with `compile` / `goEval` on a program without
+        # break / continue / post clause: the theorems would not be about what is compared
+        fails.append(("model-self-check", {"compileX/execX vs compile/exec on a plain program": c.wf}))
+    if c.wf is not None and (c.wf.get("wf") != "1" or c.wf.get("scoped") != "1" or c.wf.get("nostray", "1") != "1"):
         # the hypotheses of compile_correct_wf / compile_correct_full do not hold for a generated program:
         # the theorem says nothing about it (generator or blockLocs placement problem)
-        fails.append(("theorem-hypothesis", {"wfProg/scopedProg": c.wf}))
+        fails.append(("theorem-hypothesis", {"wfProg/scopedProg/noStray": c.wf}))
     if c.src is not None and c.mrun is not None and sem_verdict(c.src, c.mrun) == "differ":
         fails.append(("model-self-check", {"src": c.src, "mrun": c.mrun}))
     if c.impl is None:
@@ -664,8 +668,10 @@ def handle_case(c, src, corpus_case, twin, add_finding, stats, distinct):
     stats["schedule_runs"] += len(c.isch)
     fails = judge_case(c)
     kinds = [k for k, _ in fails]
-    if c.wf is not None and c.wf.get("wf") == "1" and c.wf.get("scoped") == "1":
+    if c.wf is not None and c.wf.get("wf") == "1" and c.wf.get("scoped") == "1" and c.wf.get("nostray", "1") == "1":
         stats["theorem_hypotheses_hold"] = stats.get("theorem_hypotheses_hold", 0) + 1
+        if c.wf.get("plain") == "1":
+            stats["plain_programs"] = stats.get("plain_programs", 0) + 1
     if c.impl is not None:
         distinct.add(("prog", c.impl))
         if c.impl == c.m:
